@@ -186,6 +186,39 @@ func init() {
 			ok := lapack64.Syev(lapack.EVCompute, s.RawSymmetric(), ev, w3, len(w3))
 			return append(append(flat(a, c), ev...), b2f(ok))
 		}},
+		poolOp{"GSVD (tall and wide A; extraction after other pool traffic)", func(r *opRand, n int) []float64 {
+			if n > 7 {
+				n = 7
+			}
+			// wide: rows(A) < k+l, the shape in which [0 R] takes rows from B's factor
+			shapes := [][3]int{{n + 2, n + 3, n}, {n/2 + 1, n + 3, n + 1}}
+			var out []float64
+			for _, sh := range shapes {
+				a, b := r.dense(sh[0], sh[2]), r.dense(sh[1], sh[2])
+				var g mat.GSVD
+				ok := g.Factorize(a, b, mat.GSVDU|mat.GSVDV|mat.GSVDQ)
+				out = append(out, b2f(ok))
+				if !ok {
+					continue
+				}
+				// a factorization keeps no pooled storage: unrelated pool
+				// traffic before the extraction must not show in it
+				sq := r.dense(n+1, n+1)
+				sq.Mul(sq, sq)
+				var zr, sa, sb, u, v, q mat.Dense
+				g.ZeroRTo(&zr)
+				g.SigmaATo(&sa)
+				g.SigmaBTo(&sb)
+				g.UTo(&u)
+				g.VTo(&v)
+				g.QTo(&q)
+				out = append(out, flat(&zr, &sa, &sb, &u, &v, &q)...)
+				out = append(out, g.GeneralizedValues(nil)...)
+				out = append(out, g.ValuesA(nil)...)
+				out = append(out, g.ValuesB(nil)...)
+			}
+			return out
+		}},
 		poolOp{"blas64.Gemm/Syrk/Trsm (caller-owned storage)", func(r *opRand, n int) []float64 {
 			a, b := r.dense(n, n+1), r.dense(n+1, n)
 			c := r.dense(n, n)
